@@ -518,6 +518,95 @@ def run(ctx):
         ctx.saw_fn(hfn)
         _range_rule(ctx, R_rng, hfn)
 
+    # the bytes a digest is computed over are read at the table's absolute position (header positions are archive-relative)
+    R_abs = ctx.rule("C10.protected-bytes-read-at-absolute-position", "in the verification functions no seek targets an archive-relative position and no absolute/relative positions are mixed (offset-frame analysis)", floor=3)
+    from .. import frames as _frames
+    n_chk = 0
+    for f in mpq.fn_list:
+        if f.kind == "Closure" or not f.hir or not re.search(r"archive::Archive::(validate_v4_md5_checksums|verify_\w+|read_\w*signature\w*|load_attributes)$", norm(f.path)):
+            continue
+        fr = _frames.Frames(mpq, f).run()
+        n_chk += fr.checked
+        for ln, what in fr.clashes:
+            ctx.saw_fn(f)
+            ctx.bad(R_abs, "%s|frame" % norm(f.path).split("::")[-1], "%s:%s" % (f.file, ln or f.lo), what,
+                    "for an archive that does not start at offset 0 the digest is computed over the wrong bytes: intact tables are reported corrupt (and a corrupted table can go unnoticed)")
+    ctx.rules[R_abs]["obligations"] += n_chk
+    ctx.rules[R_abs]["discharged"] += n_chk
+
+    # byte order of the stored signature: zero padding goes on the most-significant side and the stored form is little-endian
+    R_end = ctx.rule("C10.signature-padding-matches-byte-order", "in generate_weak_signature the RSA result is zero-padded on its most-significant side (front while big-endian, back while little-endian) and stored little-endian", floor=2)
+    gws = mpq.fns.get("wow_mpq::crypto::signature::generate_weak_signature")
+    if gws is None or not gws.hir:
+        ctx.bad(R_end, "generate_weak_signature|missing", "-", "function not found", "anchor gone")
+    else:
+        ctx.saw_fn(gws)
+        state = {}       # local -> "BE" | "LE"
+        events = []
+
+        def src_state(n):
+            for x in hirq.walk(n):
+                if x.get("k") == "path" and x["res"].get("local") in state:
+                    return x["res"]["local"], state[x["res"]["local"]]
+            return None, None
+        for st in hirq.walk(gws.hir["body"]):
+            k = st.get("k")
+            if k == "let" and st.get("init") is not None and st["pat"].get("k") == "bind":
+                init = st["init"]
+                r_ = hirq.render(init)
+                if re.search(r"\.to_bytes_be\(\)$", r_):
+                    state[st["pat"]["name"]] = "BE"
+                elif re.search(r"\.to_bytes_le\(\)$", r_):
+                    state[st["pat"]["name"]] = "LE"
+                elif re.search(r"reverse_bytes\(|\.rev\(\)|reverse\(", r_):
+                    nm, stt = src_state(init)
+                    if stt:
+                        state[st["pat"]["name"]] = "LE" if stt == "BE" else "BE"
+                        events.append(("reverse", st["ln"], stt))
+            elif k == "mcall" and st["m"] == "reverse":
+                nm, stt = src_state(st["recv"])
+                if stt:
+                    state[nm] = "LE" if stt == "BE" else "BE"
+                    events.append(("reverse", st["ln"], stt))
+            elif k == "mcall" and st["m"] in ("extend", "extend_from_slice", "append") and st.get("args"):
+                # zeros.extend(sig)  => zeros in front of sig
+                nm, stt = src_state(st["args"][0])
+                recv = hirq.strip(st["recv"])
+                if stt and recv.get("k") == "path" and recv["res"].get("local") not in state:
+                    events.append(("pad-front", st["ln"], stt))
+                    state[recv["res"]["local"]] = stt
+                elif recv.get("k") == "path" and recv["res"].get("local") in state and re.search(r"from_elem|repeat|\[0", hirq.render(st["args"][0])):
+                    events.append(("pad-back", st["ln"], state[recv["res"]["local"]]))
+            elif k == "mcall" and st["m"] == "resize" and hirq.strip(st["recv"]).get("k") == "path" and hirq.strip(st["recv"])["res"].get("local") in state:
+                events.append(("pad-back", st["ln"], state[hirq.strip(st["recv"])["res"]["local"]]))
+            elif k == "mcall" and st["m"] == "insert" and hirq.strip(st["recv"]).get("k") == "path" and hirq.strip(st["recv"])["res"].get("local") in state and st.get("args") and hirq.lit_int(st["args"][0]) == 0:
+                events.append(("pad-front", st["ln"], state[hirq.strip(st["recv"])["res"]["local"]]))
+            elif k == "assign":
+                l = hirq.strip(st["l"])
+                nm, stt = src_state(st["r"])
+                if l.get("k") == "path" and "local" in l["res"] and stt:
+                    state[l["res"]["local"]] = stt
+            elif k == "mcall" and st["m"] == "copy_from_slice" and st.get("args"):
+                nm, stt = src_state(st["args"][0])
+                if stt:
+                    events.append(("store", st["ln"], stt))
+        pads = [e for e in events if e[0].startswith("pad")]
+        stores = [e for e in events if e[0] == "store"]
+        for kind, ln, stt in pads:
+            ok_ = (kind == "pad-front" and stt == "BE") or (kind == "pad-back" and stt == "LE")
+            if ok_:
+                ctx.ok(R_end, {"event": kind, "byte_order": stt, "line": ln})
+            else:
+                ctx.bad(R_end, "generate_weak_signature|%s-while-%s" % (kind, stt), "%s:%d" % (gws.file, ln), "zero padding is added at the %s of a %s-endian value" % ("front" if kind == "pad-front" else "back", "big" if stt == "BE" else "little"),
+                        "whenever the RSA result is shorter than 64 bytes (top byte zero, about 1 in 256 archives) the stored signature is the value shifted by whole bytes: the library's own signature over unmodified data does not verify")
+        for kind, ln, stt in stores:
+            if stt == "LE":
+                ctx.ok(R_end, {"event": "stored", "byte_order": stt, "line": ln})
+            else:
+                ctx.bad(R_end, "generate_weak_signature|stored-big-endian", "%s:%d" % (gws.file, ln), "the signature is stored big-endian", "the verifier (and StormLib) read it little-endian")
+        if not pads or not stores:
+            ctx.bad(R_end, "generate_weak_signature|shape", gws.where, "padding (%d) / store (%d) steps not recognised" % (len(pads), len(stores)), "shape changed")
+
     # signatures
     gen = mpq.fns.get("wow_mpq::crypto::signature::generate_weak_signature")
     ver = mpq.fns.get("wow_mpq::crypto::signature::verify_weak_signature_stormlib")
